@@ -1,6 +1,7 @@
 import ChfVerif.Model.LockDiscipline
 import ChfVerif.Gen.LockSites
 import ChfVerif.Props.C12
+import ChfVerif.Lemmas.ChargingRecords
 /-
   C11 — no request crashes the service or wedges a subscriber.
 
@@ -132,6 +133,26 @@ theorem C11_status_modelled (guard : Chf.Charging.SplitGuard) (s : Chf.Charging.
     ((Chf.Charging.step guard s op).2.status = 400 ∨ (Chf.Charging.step guard s op).2.status = 404 →
       (Chf.Charging.step guard s op).1 = s) :=
   ⟨Chf.Props.C12.C12_status_set guard s op h, Chf.Props.C12.C12_reject_no_effect guard s op⟩
+
+/-- C11 (no session whose CDR file cannot be written): a create for a SUPI that cannot name the file
+    /tmp/<supi>.cdr — a path separator, a NUL octet, more than 251 octets — is refused with 400 and changes
+    nothing, so no later update or release can fail while writing that file (the defect repaired in 93bac0b) -/
+theorem C11_supi_names_a_file (guard : Chf.Charging.SplitGuard) (s : Chf.Charging.State) (r : Chf.Charging.Req)
+    (h : r.supi.contains 47 = true ∨ r.supi.contains 0 = true ∨ 255 < r.supi.length + 4) :
+    Chf.Charging.step guard s (.create r) = (s, { status := 400 }) := by
+  have hrej : Chf.Charging.supiAccepted r.supi = false := by
+    unfold Chf.Charging.supiAccepted
+    rcases h with h | h | h
+    · rw [h]; simp
+    · rw [h]; simp
+    · have : decide (r.supi.length + 4 ≤ 255) = false := by simp; omega
+      rw [this]; simp
+  show Chf.Charging.create s r = _
+  exact Chf.Charging.create_rej s r (Or.inr hrej)
+
+/-- non-vacuity: "imsi-1/2" is refused, "imsi-12" is not -/
+example : Chf.Charging.supiAccepted (Chf.Charging.imsiPrefix ++ [49, 47, 50]) = false ∧
+    Chf.Charging.supiAccepted (Chf.Charging.imsiPrefix ++ [49, 50]) = true := by decide
 
 /-- the shape is needed: an explicit Unlock on every error return (the code before 87d5a34) leaves the mutex
     held when a statement before it panics -/
